@@ -2,12 +2,34 @@
 import vlib, c08
 
 
+def cost_model(v, wd, deep):
+    """QueueCostSpec: the cost of one next() against an environment that may put any sizes into any stream.  Holds for the
+    code as built; the variant that keeps the stream bytes of zero-width records (the code before D-29) has counterexamples."""
+    import os
+    from vlib import log
+    runs = [("asbuilt", ["HeldBound", "WorkLinear", "TotalLinear", "CWellFormed", "SlackSmall"], True, 4 if deep else 3, 6 if deep else 5),
+            ("buffer_zero", ["WorkLinear"], False, 3, 5), ("buffer_zero", ["HeldBound"], False, 3, 5), ("buffer_zero", ["TotalLinear"], False, 3, 5)]
+    out = []
+    for k, (variant, invs, expect_ok, ms, mp) in enumerate(runs):
+        cfg = os.path.join(wd, f"qcost_{k}.cfg")
+        vlib.write_cfg(cfg, spec="Spec", constants={"Variant": f'"{variant}"', "CWidths": "<- MCCostWidths", "MaxSize": ms, "MaxPackets": mp}, invariants=invs)
+        r = vlib.tlc_mc("MC_QueueCost", cfg, os.path.join(wd, f"qcost_{k}.out"), workers=6, timeout=1500)
+        ok = r["violated"] is None and r["ok"]
+        out.append({"variant": variant, "invariants": invs, "holds": ok, "states": r["distinct"], "violated": r["violated"]})
+        if ok != expect_ok:
+            raise vlib.ToolError(f"QueueCostSpec: variant '{variant}' expected {'to hold' if expect_ok else 'to be violated'}; TLC: {r['violated']} (see {r['out']})")
+        v.add(states=r["distinct"], transitions=r["generated"])
+    v.cov["queue_cost_model"] = out
+    log(f"[{v.pid}] QueueCostSpec: WorkLinear/HeldBound/TotalLinear hold as built ({out[0]['states']} states); the variant that buffers zero-width streams violates each")
+
+
 def run(tier, seed, args):
     v = vlib.Verdict("C09", tier, seed, "exploration")
     wd = vlib.workdir("C09")
     exe = vlib.build_harness()
+    cost_model(v, wd, tier == "thorough")
     c08.run_untrusted(v, wd, exe, seed, tier, ("C09",))
     v.add(rule="same mutated files as C08; per call the harness records device bytes read, peak heap allocated (counting allocator) and points yielded; TLC checks devread <= 2*size + 2 pages, "
-               "alloc <= 512 B*(n+8)*size + 64 MiB (n = declared prototype length), yielded <= recordCount; a process killed by the allocation cap (3 GiB) or stalled for 25 s is a violation")
+               "alloc <= 512 B*(n+8)*size + 64 MiB (n = declared prototype length), yielded <= recordCount, bytes moved by the byte-stream buffers in one call (work-counter hook) <= 6*size + 4 KiB (QueueCostSpec.WorkLinear; directed cost cases: hundreds of packets that never complete a point, bytes in zero-width streams); a process killed by the allocation cap (3 GiB) or stalled for 25 s is a violation")
     v.assumptions += ["time is replaced by counted bytes/allocations plus a stall timeout; constants are deliberately loose (they separate 'proportional to the input' from 'driven by a field inside the file')"]
     return v.finish()
